@@ -24,7 +24,7 @@ func (s *State) DefineMacros(programNode ast.Node) {
 
 func isAssign(node ast.Node) (*ast.InfixExpression, bool) {
 	exp, ok := node.(*ast.InfixExpression)
-	if ok && exp.Token == token.ByType(token.ASSIGN) {
+	if ok && (exp.Token.Type() == token.ASSIGN || exp.Token.Type() == token.DEFINE) { // m = macro... or m := macro...
 		return exp, true
 	}
 	return nil, false
